@@ -16,7 +16,7 @@ from vmc.core import lattice, listing, pool
 from vmc.core.listing import ok, bad
 from vmc.core.report import HarnessError
 
-FORMATS = ["glyf_colr_1", "picosvg", "cbdt", "untouchedsvg"]  # untouchedsvg hands the *sources themselves* (paths outside the build dir) to the later steps
+FORMATS = ["glyf_colr_1", "picosvgz", "cbdt", "untouchedsvg"]  # picosvgz = picosvg + gzip of every document (its header has a time field)  # untouchedsvg hands the *sources themselves* (paths outside the build dir) to the later steps
 
 
 def source_texts(n):
@@ -353,7 +353,7 @@ def run(report, tier, only=None):
         for layout in (["two_dirs"] if tier == "quick" else ["two_dirs", "one_dir"]):
             for fmt in FORMATS:
                 for d in devs:
-                    if len(d) > 1 and fmt in ("cbdt", "untouchedsvg"):
+                    if len(d) > 1 and fmt in ("cbdt", "untouchedsvg"):  # (picosvgz and glyf_colr_1 get all)
                         continue  # two deviations at once for the vector and picosvg formats only (time)
                     cases.append(dict(d, fmt=fmt, n=n, layout=layout))
         res = listing.run(report, cases, execute, timeout=900, jobs=6)
